@@ -18,6 +18,9 @@ def make_case(rng, tier):
     return c
 
 
+CAPPED = []
+
+
 def _drive(eng, script, sched_rng=None, max_iter=4000):
     eng.setup(script)
     it = 0
@@ -41,6 +44,8 @@ def _drive(eng, script, sched_rng=None, max_iter=4000):
                 it += 1
         if not alive:
             break
+    else:
+        CAPPED.append(True)       # the loop was cut by the harness, not completed by the engine: schedules stop at different places
     out = eng.get_output()
     eng.finalize()
     return out, _clip([float(v) for v in out.t.value] + [float(v) for v in out.data.value])
@@ -48,6 +53,7 @@ def _drive(eng, script, sched_rng=None, max_iter=4000):
 
 def observe(c):
     import strengths
+    del CAPPED[:]
     rng = random.Random(c["sched_seed"])
     kind = c["engine"]
     script = trajgen.build_script(strengths, c)
@@ -63,10 +69,12 @@ def observe(c):
     # after unrelated simulations of other kinds in the same process
     for _ in range(rng.randint(1, 3)):
         oc = trajgen.make_sim_case(rng, max_cells=3, max_steps=10)
+        n0 = len(CAPPED)
         try:
             _drive(engine_build.engine(oc["engine"]), trajgen.build_script(strengths, oc), max_iter=300)
         except Exception:
             pass
+        del CAPPED[n0:]           # the unrelated runs may be cut short: they are only history
     runs.append(["after_other_simulations", _drive(e1, script)[1], True])
     # random partitions of the loop into iterate / iterate_n(k) / run(ms)
     for k in range(3):
@@ -89,6 +97,8 @@ def observe(c):
         runs.append(["other_seed", tr_s, True])
     elif kind == "gillespie" and nt >= 3 and c["policy"] in ("on_iteration",):
         runs.append(["other_seed", tr_s, False])          # event times are continuous: they differ as soon as there is an event
+    if CAPPED:
+        return {"nonfinite": True, "capped": True}        # discarded like a diverged run: nothing comparable
     return {"ref": ref, "runs": runs, "drawn_seed_reproduces": drawn_ok, "nsamples": nt, "drawn_seed": out_n.script.rng_seed}
 
 
